@@ -13,6 +13,10 @@ def check(ctx):
     core2.mgr_provided_mirrors(ctx, "C05")
     core2.def_method_result(ctx, "C05")
     core2.mm_call_recording(ctx, "C05")
+    core2.methods_provide(ctx, "C05")
+    from . import core9
+
+    core9.enable_call_defaults(ctx, "C05")
     from .c38 import one_hot_mux_alignment
 
     one_hot_mux_alignment(ctx, "C05")
